@@ -27,6 +27,8 @@ def _replay_one(rec):
     if rec["dg"] % 2 == 0:                    # ... and for half of the experiments a table object made by the library itself (its own dtype)
         made = impl.call(dsw.create_random_shuffles, 1, random_seed=rec["dg"] + 3)
         if made["out"] == "ok":
+            if getattr(made["value"], "shape", None) != (4, 4):
+                return [("table-shape", [4, 4], list(getattr(made["value"], "shape", ())))]
             sh = made["value"]
             sh[:, :] = numpy.array(tbl)
     keep = sh.copy()
